@@ -6,14 +6,19 @@ package gate
 // the register+version model (brute force over all orders compatible with real time).
 
 import (
+	"context"
+	"encoding/json"
 	"fmt"
 	"sort"
 	"strings"
 	"testing"
 
+	"gopkg.in/yaml.v3"
+
 	"go.minekube.com/gate/pkg/edition/java/proxy/zzverif/sched"
 	"go.minekube.com/gate/pkg/edition/java/proxy/zzverif/schedrun"
 	"go.minekube.com/gate/pkg/edition/java/proxy/zzverif/vrt"
+	pb "go.minekube.com/gate/pkg/internal/api/gen/minekube/gate/v1"
 )
 
 // call is one completed operation of one thread.
@@ -28,6 +33,10 @@ type call struct {
 	snap     string // snapshot: content
 	snapVer  string
 	proxyRts string // snapshot: proxy routes read lock-free just before ConfigSnapshot
+	// api: the call went through ConfigHandlerImpl.ApplyConfig; the handler only tells success
+	// (applied or unchanged) from failure
+	api   bool
+	apiOK bool
 }
 
 type rec struct {
@@ -50,6 +59,46 @@ func (l *rec) applyIf(g *Gate, thread, cand, ver string) {
 	c.res = g.ApplyLiveConfigIfVersion(buildCandidate(cand), ver)
 	c.ret = l.tick()
 	l.calls = append(l.calls, c)
+}
+
+// apiApply runs the REAL API handler: a conditional apply of candidate `cand` (as an RFC 7396
+// merge patch of its routes, or as a complete YAML payload) with if_match = ver.
+func (l *rec) apiApply(h *ConfigHandlerImpl, thread, cand, ver string, fullPayload bool) {
+	req := &pb.ApplyConfigRequest{IfMatch: ver}
+	cfg := buildCandidate(cand)
+	if fullPayload {
+		b, err := yaml.Marshal(cfg)
+		if err != nil {
+			l.x.Fail("harness/api-payload", "%v", err)
+			return
+		}
+		req.Input = &pb.ApplyConfigRequest_Config{Config: string(b)}
+	} else {
+		b, err := json.Marshal(map[string]any{"config": map[string]any{"lite": map[string]any{"routes": cfg.Config.Lite.Routes}}})
+		if err != nil {
+			l.x.Fail("harness/api-payload", "%v", err)
+			return
+		}
+		req.Input = &pb.ApplyConfigRequest_MergePatch{MergePatch: string(b)}
+	}
+	c := &call{thread: thread, kind: "apply-if", cand: cand, ver: ver, api: true, call: l.tick()}
+	resp, err := h.ApplyConfig(context.Background(), req)
+	c.ret = l.tick()
+	c.apiOK = err == nil
+	if resp != nil {
+		c.res.Version = resp.Version
+	}
+	l.calls = append(l.calls, c)
+}
+
+// apiVersion is GetConfig through the handler: the version a client would send as if_match.
+func (l *rec) apiVersion(h *ConfigHandlerImpl) string {
+	gc, err := h.GetConfig(context.Background(), &pb.GetConfigRequest{})
+	if err != nil {
+		l.x.Fail("GetConfig/error", "%v", err)
+		return ""
+	}
+	return gc.Version
 }
 
 func (l *rec) snapshot(g *Gate, thread string) {
@@ -106,7 +155,11 @@ func linearizable(calls []*call, initial string, book *versionBook) (bool, strin
 				withVer := c.kind == "apply-if"
 				isCur := withVer && known[c.ver] == m2.cur
 				want := m2.apply(c.cand, withVer, isCur)
-				if resultOutcome(c.res, withVer, isCur) != want {
+				if c.api {
+					if (want.Applied || want.Unchanged) != c.apiOK {
+						continue
+					}
+				} else if resultOutcome(c.res, withVer, isCur) != want {
 					continue
 				}
 				if (want.Applied || want.Unchanged) && c.res.Version != "" {
@@ -156,6 +209,13 @@ func describe(c *call) string {
 		return fmt.Sprintf("%s:snapshot->%x", c.thread, hashStr(c.snap))
 	case "apply":
 		return fmt.Sprintf("%s:apply(%s)->%s", c.thread, c.cand, resultWord(c.res))
+	}
+	if c.api {
+		w := "refused"
+		if c.apiOK {
+			w = "ok"
+		}
+		return fmt.Sprintf("%s:api-apply-if(%s)->%s", c.thread, c.cand, w)
 	}
 	return fmt.Sprintf("%s:apply-if(%s)->%s", c.thread, c.cand, resultWord(c.res))
 }
@@ -226,10 +286,17 @@ func (l *rec) finish(g *Gate, contents map[string]bool) {
 	var outs []string
 	for _, c := range l.calls {
 		outs = append(outs, describe(c))
+		if c.api {
+			apiTally[describe(c)]++
+		}
 	}
 	sort.Strings(outs)
 	x.Outcome(strings.Join(outs, ",") + "=>" + fmt.Sprintf("%x", hashStr(content(fsnap))))
 }
+
+// apiTally counts, over all executions of this shard, how the calls through the real API handler
+// ended (evidence that both "handler wins" and "handler loses" were explored).
+var apiTally = map[string]int{}
 
 func candidateContents(kinds ...string) map[string]bool {
 	m := map[string]bool{contentOf(""): true}
@@ -255,6 +322,11 @@ func setup(x *sched.X) (*Gate, *rec, string) {
 
 func TestVerif(t *testing.T) {
 	vrt.Run(t, "C35", func(r *vrt.R) {
+		defer func() {
+			for k, n := range apiTally {
+				r.ClassN("sched:"+k, n)
+			}
+		}()
 		schedrun.Run(r, []schedrun.Scenario{
 			{Name: "two-appliers-one-reader", Quick: 2, Thorough: 3, Body: func(x *sched.X) {
 				g, l, _ := setup(x)
@@ -318,6 +390,54 @@ func TestVerif(t *testing.T) {
 				x.Go("c2", client("c2", cR2))
 				x.Go("c3", client("c3", cSame))
 				x.AtEnd(func() { l.finish(g, candidateContents(cR1, cR2, cSame)) })
+			}},
+			// The REAL API handler (ConfigHandlerImpl.ApplyConfig, if_match obtained through
+			// GetConfig) against writers that do not go through the handler and therefore not
+			// through its applyMu: the config-file watcher (Gate.ApplyLiveConfig) and a direct
+			// conditional applier. The handler's compare and its swap must be one atomic step:
+			// scheduling points lie between its ConfigSnapshot and its apply.
+			{Name: "api-handler-vs-watcher", Quick: 2, Thorough: 3, Body: func(x *sched.X) {
+				g, l, _ := setup(x)
+				if g == nil {
+					return
+				}
+				h := NewConfigHandler(g, "")
+				v := l.apiVersion(h)
+				x.Go("api", func() { l.apiApply(h, "api", cR1, v, false) })
+				x.Go("watcher", func() { l.apply(g, "watcher", cR2) })
+				x.AtEnd(func() { l.finish(g, candidateContents(cR1, cR2)) })
+			}},
+			{Name: "api-handler-vs-direct-cas", Quick: 2, Thorough: 3, Body: func(x *sched.X) {
+				g, l, v0 := setup(x)
+				if g == nil {
+					return
+				}
+				h := NewConfigHandler(g, "")
+				v := l.apiVersion(h)
+				x.Go("api", func() { l.apiApply(h, "api", cR1, v, true) })
+				x.Go("cas", func() { l.applyIf(g, "cas", cR2, v0) })
+				x.AtEnd(func() {
+					n := 0
+					for _, c := range l.calls {
+						if c.res.Applied || c.api && c.apiOK {
+							n++
+						}
+					}
+					if n != 1 {
+						x.Fail("apply-if/cas-winners", "%d of two conditional applies (API handler, direct) with the same expected version succeeded, want exactly 1", n)
+					}
+					l.finish(g, candidateContents(cR1, cR2))
+				})
+			}},
+			{Name: "api-handler-vs-api-handler", Quick: 1, Thorough: 2, Body: func(x *sched.X) {
+				g, l, _ := setup(x)
+				if g == nil {
+					return
+				}
+				h := NewConfigHandler(g, "")
+				x.Go("api1", func() { l.apiApply(h, "api1", cR1, l.apiVersion(h), false) })
+				x.Go("api2", func() { l.apiApply(h, "api2", cR2, l.apiVersion(h), true) })
+				x.AtEnd(func() { l.finish(g, candidateContents(cR1, cR2)) })
 			}},
 		})
 	})
